@@ -441,11 +441,16 @@ static int print_expr (hawk_t* hawk, hawk_nde_t* nde)
 			{
 				hawk_ooch_t buf[96];
 
+				/* the text must read back as the same floating-point number.
+				 * %f keeps 6 digits after the point only and is unbounded in
+				 * length for a large number. print 17 significant digits in
+				 * the exponent form: hawk_oochars_to_flt() takes 18 mantissa
+				 * digits at most, counting leading zeros, and a 17-digit
+				 * number is read back and printed as the same 17 digits. */
 			#if defined(HAWK_USE_FLTMAX)
-				/*hawk_fmttooocstr (hawk, buf, HAWK_COUNTOF(buf), HAWK_T("%jf"), ((hawk_nde_flt_t*)nde)->val);*/
-				hawk_fmttooocstr (hawk, buf, HAWK_COUNTOF(buf), HAWK_T("%jjf"), &((hawk_nde_flt_t*)nde)->val);
+				hawk_fmttooocstr (hawk, buf, HAWK_COUNTOF(buf), HAWK_T("%.16jje"), &((hawk_nde_flt_t*)nde)->val);
 			#else
-				hawk_fmttooocstr (hawk, buf, HAWK_COUNTOF(buf), HAWK_T("%zf"), ((hawk_nde_flt_t*)nde)->val);
+				hawk_fmttooocstr (hawk, buf, HAWK_COUNTOF(buf), HAWK_T("%.16ze"), ((hawk_nde_flt_t*)nde)->val);
 			#endif
 				if (buf[0] == HAWK_T('-')) PUT_SRCSTR (hawk, HAWK_T("("));
 				PUT_SRCSTR (hawk, buf);
